@@ -598,6 +598,10 @@ func runScenario(sc scenario, dir string) (res result, wit witness) {
 				}
 				sinkUp = true
 			}
+			if f.Kind == "quiet" {
+				healthyFrom = j // nothing happened to the sink: no message may be lost, and nothing else may arrive
+				continue
+			}
 			healthyFrom = j + 4 // bounded gap: at most 4 judged messages may be lost after the sink is reachable again
 			continue
 		}
@@ -800,6 +804,11 @@ func scenarios(seed int64, thorough bool) []scenario {
 		add(scenario{Proto: "tcp", Retry: 2, N: 5 + 25 + 3, Content: "plain", Faults: []fault{{After: 5, Kind: kind, Down: 3, IdleMs: 12500}}})
 	}
 	add(scenario{Proto: "udp", Retry: 2, N: 5 + 25 + 3, Content: "plain", Faults: []fault{{After: 5, Kind: "down", Down: 3, IdleMs: 12500}}})
+	// ... and a quiet period with no fault at all: what follows it on the healthy connection must be the handed-over
+	// messages and nothing else (round 14, C14-m: an "idle probe" line written ahead of the next message)
+	for _, proto := range []string{"tcp", "udp"} {
+		add(scenario{Proto: proto, Retry: 2, N: 5 + 10, Content: "plain", Faults: []fault{{After: 5, Kind: "quiet", IdleMs: 12500}, {After: 9, Kind: "quiet", IdleMs: 10}}})
+	}
 	for _, proto := range []string{"tcp", "udp"} {
 		for _, at := range pos {
 			for _, r := range retries {
